@@ -44,6 +44,7 @@ type Engine struct {
 	anonStructs map[string]string
 	declaring   map[string]bool
 	heapSorts   map[string]Sort
+	havocAllMin int // number of heaps known at the earliest havoc-everything of this run (-1: none)
 	globalIDs   map[string]int
 	globalsUsed map[string]bool
 	globalOrder []*ssa.Global
@@ -116,6 +117,7 @@ func (e *Engine) resetRun() {
 	e.globalsUsed = map[string]bool{}
 	e.globalOrder = nil
 	e.restart = false
+	e.havocAllMin = -1
 }
 
 func (e *Engine) addFact(s *State, f *Term) { e.addFactK(s, f, "") }
@@ -1050,6 +1052,9 @@ func (e *Engine) implements(tagTerm *Term, iface *types.Interface, ifaceName str
 		if t, ok := e.tagTypes[id]; ok {
 			return tb.Bool(types.Implements(t, iface))
 		}
+	}
+	if tagTerm.Op == "ite" {
+		return tb.Ite(tagTerm.Args[0], e.implements(tagTerm.Args[1], iface, ifaceName), e.implements(tagTerm.Args[2], iface, ifaceName))
 	}
 	fn := "impl_" + sanitize(ifaceName)
 	tb.DeclareUF(fn, "(Int) Bool")
